@@ -213,4 +213,11 @@ def run : State → List Ev → State × List Obs
     let r' := run r.1 es
     (r'.1, r.2 ++ r'.2)
 
+/-- the same history step by step: every event with what it showed. -/
+def trace : State → List Ev → List (Ev × List Obs)
+  | _, [] => []
+  | s, e :: es =>
+    let r := step s e
+    (e, r.2) :: trace r.1 es
+
 end H3.Goaway
